@@ -163,6 +163,8 @@ class UnitRegistry:
 
         # Add to lut
         self.lut[symbol] = (base_value, dimensions, offset, tex_repr, prefixable)
+        # units already built from strings mentioning this symbol are out of date
+        self._unit_object_cache.clear()
 
     def remove(self, symbol):
         """
@@ -184,8 +186,8 @@ class UnitRegistry:
             )
 
         del self.lut[symbol]
-        if symbol in self._unit_object_cache:
-            del self._unit_object_cache[symbol]
+        # not only the symbol itself: prefixed and compound strings mention it too
+        self._unit_object_cache.clear()
 
     def modify(self, symbol, base_value):
         """
@@ -217,8 +219,8 @@ class UnitRegistry:
             new_dimensions = self.lut[symbol][1]
 
         self.lut[symbol] = (float(base_value), new_dimensions) + self.lut[symbol][2:]
-        if symbol in self._unit_object_cache:
-            del self._unit_object_cache[symbol]
+        # not only the symbol itself: prefixed and compound strings mention it too
+        self._unit_object_cache.clear()
 
     def keys(self):
         """
